@@ -1008,6 +1008,88 @@ theorem operands_after_add_ok {a b : RState K} {L1 L2 : List (K × K)} {B1 B2 : 
   | shallowCopy => exact absurd h add_target_sound
   | deepCopy => exact ⟨_, _, ha⟩
 
+/-! ## Round 5: calls the source refuses leave no trace -/
+
+/-- **A refused `update` leaves the histogram as it was** — bins, bounds, cache.  `rejectedUpdate` is what the
+object holds when `update(h, value, count)` raises at its validation: the statements of the function body that
+*precede* the `if count <= 0: raise ValueError` in the source, in source order, applied to the bounds
+(`Gen.DistogramObj.updBeforeReject`, regenerated from the working tree on every run — on the tree as it is nothing
+precedes the validation but the cast of the value).  Python objects are changed in place: a bounds statement moved
+in front of the validation ("the bounds follow every value seen") would widen the range of the histogram the caller
+still holds by a value that was never stored, and this no longer checks. -/
+theorem update_rejected_leaves_state (h : Hist K) (v : K) : rejectedUpdate h v = h := by
+  rfl
+
+/-- What `update` refuses: the test of the source (`Gen.DistogramFlow.updCountBad`) is "`count ≤ 0`", and the faithful
+machine answers such a call with `ValueError` from every state, whatever the value. -/
+theorem update_refuses_nonpositive_counts (h : Hist K) (v c : K) :
+    (Gen.DistogramFlow.updCountBad c = true ↔ c ≤ 0) ∧ (c ≤ 0 → update h v c = .error "ValueError") := by
+  have h1 : Gen.DistogramFlow.updCountBad c = true ↔ c ≤ 0 := by simp [Gen.DistogramFlow.updCountBad]
+  refine ⟨h1, fun hc => ?_⟩
+  unfold update
+  rw [if_pos (h1.2 hc)]
+
+/-- **The model's step for a refused call is the identity**: the object a caller holds after
+`try: update(h, value, count) except ValueError: pass` with `count ≤ 0` is the object it held before. -/
+theorem caught_rejection_is_identity (h : Hist K) (v c : K) (hc : c ≤ 0) : updateCaught h v c = h := by
+  have h1 := update_refuses_nonpositive_counts h v c
+  simp only [updateCaught, h1.2 hc, h1.1.2 hc, if_true, update_rejected_leaves_state]
+
+/-- **Every observable of the property is the same after a refused call**: bins, minimum, maximum, the estimated
+count at every point (in particular `None` outside the observed range) and the quantile at every level (in
+particular the minimum at 0 and the maximum at 1). -/
+theorem rejected_update_keeps_every_answer (h : Hist K) (v c : K) (hc : c ≤ 0) (floor : K → K) (x q : K) :
+    let h' := updateCaught h v c
+    h'.bins = h.bins ∧ h'.min = h.min ∧ h'.max = h.max ∧
+      countAt h'.bins h'.min h'.max x = countAt h.bins h.min h.max x ∧
+      quantile floor h'.bins h'.min h'.max q = quantile floor h.bins h.min h.max q := by
+  simp only [caught_rejection_is_identity h v c hc, and_self]
+
+/-- **Histories with refused calls are the histories without them.**  A stream of calls on one object in which the
+caller carries on after every refusal ends in the state the accepted calls alone produce — from any state, for any
+interleaving — so every theorem about histograms reached by accepted operations (`stream_exact_at_true_ends`,
+`untrimmed_stream_countAt_full`, `built_exact_at_true_ends`, …) speaks about these histories as well. -/
+theorem rejected_updates_leave_no_trace (h : Hist K) (ops : List (K × K)) :
+    runCaught h ops = runCaught h (ops.filter fun p => !Gen.DistogramFlow.updCountBad p.2) := by
+  induction ops generalizing h with
+  | nil => rfl
+  | cons p ps ih =>
+    by_cases hb : Gen.DistogramFlow.updCountBad p.2 = true
+    · have hc : p.2 ≤ 0 := (update_refuses_nonpositive_counts h p.1 p.2).1.1 hb
+      simp only [runCaught, List.foldl_cons, List.filter_cons, hb, Bool.not_true, Bool.false_eq_true, if_false,
+        caught_rejection_is_identity h p.1 p.2 hc]
+      exact ih h
+    · simp only [Bool.not_eq_true] at hb
+      simp only [runCaught, List.foldl_cons, List.filter_cons, hb, Bool.not_false, if_true]
+      exact ih _
+
+/-- The same on the object heap the correspondence run drives (`Drv/C14.lean`, op `upd`): a refused call reports
+`ValueError` and **no register** — the one the call went through, another name of the same object, any other
+object — answers differently afterwards. -/
+theorem heap_rejected_update (s s' : ObjHeap K) (r : Nat) (v c : K) (hc : c ≤ 0) (e : Option String)
+    (h : s.updCaught r v c = some (s', e)) :
+    e = some "ValueError" ∧ ∀ r', s'.get r' = s.get r' := by
+  unfold ObjHeap.updCaught at h
+  cases hg : s.get r with
+  | none => simp [hg] at h
+  | some p =>
+    obtain ⟨o, hh⟩ := p
+    simp only [hg, Option.map_some, (update_refuses_nonpositive_counts hh v c).2 hc,
+      caught_rejection_is_identity hh v c hc, Option.some.injEq, Prod.mk.injEq] at h
+    obtain ⟨rfl, rfl⟩ := h
+    exact ⟨rfl, ObjHeap.get_put_same s r o hh hg⟩
+
+/-- **What goes wrong when the bounds statements precede the validation**: the statements as they are in the
+source (`updBounds`), run on a histogram observed on `[mn, mx]` with a value above the maximum, make that value the
+maximum — so a refused `update(h, 1000, count=0)` would leave `quantile(h, 1) = 1000` and `count_at` defined up to
+1000 on a histogram that never stored it. -/
+theorem early_bounds_leak_the_rejected_value (mn mx v : K) (h2 : mx < v) (h1 : mn ≤ mx) :
+    updBounds (some mn) (some mx) v = (some mn, some v) := by
+  have : ¬ mn > v := by
+    intro h
+    exact absurd h (not_lt.2 (le_of_lt (lt_of_le_of_lt h1 h2)))
+  simp [updBounds, noneOr, this, h2]
+
 end objects
 
 /-- **What goes wrong with a shallow copy** (`merge(copy(self), operand)`): `a` holds 20, `b` holds 29,
